@@ -45,7 +45,7 @@ SendMsg(e) ==
        LET b == bootRec[curBoot[e]]
            rx == b.bt + b.dl + ts
        IN /\ rx > maxRxPrev[e]                    \* reception-time separation from all previous boots of this ECU
-          /\ Step([ecu |-> e, rx |-> rx, ts |-> ts, kind |-> "norm"], order)
+          /\ Step([ecu |-> e, rx |-> rx, ts |-> ts, kind |-> "norm", ix |-> nextIdx], order)
           /\ bootRec' = [bootRec EXCEPT ![curBoot[e]].maxts = Max(@, ts), ![curBoot[e]].used = TRUE]
           /\ truth' = Append(truth, curBoot[e])
   /\ UNCHANGED <<curBoot, maxRxPrev, kfClass>>
